@@ -1,4 +1,5 @@
 import ReplicatProofs.Lemmas.CacheCmd
+import ReplicatProofs.Lemmas.CacheFS
 /-!
 # C18 — the snapshot cache never changes what a command does
 
@@ -14,6 +15,10 @@ Hypotheses, and where they come from:
   `Generated.lean`; on a tree where `_download_snapshot_threadsafe` does not verify the cached copy this file stops compiling, and
   `truncated_entry_witness` (stated for the unverified variant, which `unverified_model` proves to be the model in that case)
   is the failing input.
+* `storePlanOk = true` (the file-system operations of `_store_cached`, read from its AST into `Gen.cacheStorePlanRaw` /
+  `Gen.cacheTempUnique`, cannot fail on any state of the directory and under interference by other clients) is NOT a hypothesis
+  either: `store_plan_holds` discharges it by `decide`; see the section on the cache DIRECTORY below (`store_never_fails`,
+  `directory_cache_irrelevant`, `kill_leftover_irrelevant`, `exclusive_temp_witness`).
 -/
 namespace Replicat.C18
 open Replicat Replicat.Repo Replicat.CacheCmd Replicat.P18 List
@@ -166,6 +171,124 @@ theorem truncated_entry_witness :
    by intro f sid b b' h _; simp only [Repo.get, find?_cons, find?_nil] at h; split at h <;> simp at h,
    by intro f sid b b' h _; simp only [Repo.get, find?_cons, find?_nil] at h; split at h <;> simp_all,
    by decide, by decide, by decide⟩
+
+/-! ## the cache DIRECTORY: what a hard kill, or a second writer, leaves next to the entries
+
+`_store_cached` as the sequence of file-system operations the extractor read from its AST (`storePlan`).  The theorems above
+quantify over every CONTENT of the entry files; these quantify over every state of the directory — entries, temporaries lying
+next to them, missing parent directories — and over every point at which an earlier run was killed.
+`Gen.cacheStorePlanRaw` / `Gen.cacheTempUnique` are NOT hypotheses: `store_plan_holds` discharges the static safety of the plan
+by `decide`; on a tree whose `_store_cached` can fail on some directory state (an exclusive create of a deterministic name, a
+rename of a name another client may have taken, an `unlink` without `missing_ok`, …) this file stops compiling, and
+`exclusive_temp_witness` shows the failing directory for the exclusive-create case. -/
+
+/-- the regenerated plan: recognised, statically safe under interference, and effective -/
+theorem store_plan_holds : storePlanOk = true := by decide
+
+theorem store_plan_spec :
+    ∃ p, storePlan = some p ∧ planSafe Gen.cacheTempUnique p = true ∧ planEffective p = true := by
+  have h := store_plan_holds
+  unfold storePlanOk at h
+  cases hp : storePlan with
+  | none => rw [hp] at h; cases h
+  | some p =>
+    rw [hp] at h
+    simp only [Bool.and_eq_true] at h
+    exact ⟨p, rfl, h.1, h.2⟩
+
+/-- **`_store_cached` never fails because of what the directory holds**: from EVERY state of the entry's names (entry absent /
+valid / empty / torn / foreign, a temporary left by a killed run, the parent directory missing) and with other clients acting on
+the same names between any two of its operations (`EnvOk`: they may create, replace or evict the entry and deterministic
+temporaries; they do not remove directories or touch a temporary unique to this run), every operation succeeds; and an
+undisturbed run leaves the payload under the entry name. -/
+theorem store_never_fails (o : Obj) (l : Loc) (envs : List (Loc → Loc)) (he : ∀ f ∈ envs, EnvOk Gen.cacheTempUnique f) :
+    ∃ p, storePlan = some p ∧ (∃ l', runOpsI o p envs (startLoc Gen.cacheTempUnique l) = .ok l') ∧
+      (∃ l', runStore p Gen.cacheTempUnique o l = .ok l' ∧ l'.entry = some o) := by
+  obtain ⟨p, hp, hsafe, heff⟩ := store_plan_spec
+  obtain ⟨l', hl'⟩ := planSafe_runStore hsafe o l
+  exact ⟨p, hp, planSafe_total hsafe o envs he l, l', hl', planEffective_entry heff hl'⟩
+
+/-- **What a hard kill leaves** under the names of one entry — after any number `k` of the operations, possibly inside the
+write (`tear`): every file is the payload itself, an empty or torn file, or a file that was there before. -/
+theorem kill_leaves_old_or_torn (k : Nat) (tear : Option Nat) (o : Obj) (l l' : Loc) (p : List FsOp)
+    (h : killed p Gen.cacheTempUnique k tear o l = .ok l') : FromOld o l l' :=
+  killed_fromOld h
+
+/-- **The directory is irrelevant**: for EVERY state `d` of the cache directory — entries with any content, temporaries lying
+next to them, parent directories missing — `_load_snapshots` INCLUDING the stores it performs returns what it returns with the
+cache disabled (in particular no store fails). -/
+theorem directory_cache_irrelevant (d : CDir) (enc : Bool) (u : User) (re : Nat → Bool) (s : Store) (hs : WF s)
+    (ha : Agree d.entries s) :
+    ∃ p, storePlan = some p ∧ loadSnapshotsD p Gen.cacheTempUnique d enc u re s = liftErr (loadSnapshots enc u re s) := by
+  obtain ⟨p, hp, hsafe, _⟩ := store_plan_spec
+  refine ⟨p, hp, ?_⟩
+  unfold loadSnapshotsD
+  rw [load_cache_irrelevant d.entries enc u re s hs ha]
+  cases loadSnapshots enc u re s with
+  | error e => rfl
+  | ok ls =>
+    dsimp only
+    split
+    · rename_i x hx
+      obtain ⟨e, _, hfe⟩ := List.exists_of_findSome?_eq_some hx
+      obtain ⟨l', hl'⟩ := planSafe_runStore hsafe e.2 (d.loc e.1)
+      rw [hl'] at hfe
+      cases hfe
+    · rfl
+
+/-- **Later commands after a hard kill.**  A run that was storing the listed snapshot `(n, o)` is killed after `k` operations
+(possibly inside the write); the directory `d'` is `d` with the entry of `n` as the kill left it — and ANY temporaries / missing
+directories.  Under ideal hash every later command loads what it loads without a cache, and none of its stores fails. -/
+theorem kill_leftover_irrelevant (B : Fam → Nat → Body) (d d' : CDir) (n : Name) (o : Obj) (k : Nat) (tear : Option Nat) (l' : Loc)
+    (p : List FsOp) (enc : Bool) (u : User) (re : Nat → Bool) (s : Store) (hs : WF s) (hB : Ideal B s)
+    (hd : Ideal B d.entries) (ht : Ideal B d.temps) (ho : (n, o) ∈ s)
+    (hk : killed p Gen.cacheTempUnique k tear o (d.loc n) = .ok l')
+    (hd' : d'.entries = match l'.entry with | some x => put d.entries n x | none => del d.entries n) :
+    ∃ p, storePlan = some p ∧ loadSnapshotsD p Gen.cacheTempUnique d' enc u re s = liftErr (loadSnapshots enc u re s) := by
+  apply directory_cache_irrelevant d' enc u re s hs
+  apply agree_of_ideal _ hB
+  rw [hd']
+  have hold := killed_fromOld hk
+  cases hle : l'.entry with
+  | none =>
+    intro e he
+    exact hd e ((mem_del d.entries n e).mp he).1
+  | some x =>
+    intro e he f sid b hb
+    rcases mem_put he with rfl | h
+    · rcases hold .entry x (by simpa [getSlot] using hle) with rfl | ⟨j, rfl⟩ | ⟨t', ht'⟩
+      · exact hB _ ho f sid b hb
+      · cases hb
+      · cases t' with
+        | entry => exact hd _ (mem_of_get (by simpa [getSlot, CDir.loc] using ht')) f sid b hb
+        | temp => exact ht _ (mem_of_get (by simpa [getSlot, CDir.loc] using ht')) f sid b hb
+    · exact hd e h f sid b hb
+
+/-- **Negation witness for a plan that creates a deterministic temporary EXCLUSIVELY** (`open(…, 'xb')` on a name derived from the
+entry, then write, then rename): the plan is not safe; killed before the rename it leaves the temporary (entry still absent);
+from then on the store of that entry fails (`exists`) — every later command of every client of that directory that has to cache
+the snapshot fails, while it succeeds with the cache disabled. -/
+theorem exclusive_temp_witness :
+    let p : List FsOp := [.mkdirParents true, .create .temp true, .write .temp, .rename .temp .entry]
+    let o : Obj := .snap 1 7 ⟨1, 5, [3], []⟩
+    let s : Store := [(.snap 1 7, o), (.chunk 1 3, .chunk 1 3)]
+    planSafe false p = false ∧
+    killed p false 3 none o ⟨none, none, false⟩ = .ok ⟨none, some o, true⟩ ∧
+    runStore p false o ⟨none, some o, true⟩ = .error .exists ∧
+    loadSnapshotsD p false ⟨[], [(.snap 1 7, o)], []⟩ true ⟨1, 1⟩ all s = .error (.store .exists) ∧
+    loadSnapshots true ⟨1, 1⟩ all s = .ok [⟨1, 7, [3], some ⟨1, 5, [3], []⟩⟩] ∧
+    -- the same plan with a temporary whose name is unique to the run is safe
+    planSafe true p = true := by
+  refine ⟨by decide, by decide, by decide, by decide, by decide, by decide⟩
+
+/-- non-vacuity: the plan of the code at hand, run from a directory holding a torn entry, a stray temporary and no parent
+directory, succeeds and leaves the payload -/
+example :
+    ∃ p, storePlan = some p ∧
+      runStore p Gen.cacheTempUnique (.snap 1 7 ⟨1, 5, [3], []⟩) ⟨some (.blob 1), some (.blob 0), false⟩ =
+        .ok ⟨some (.snap 1 7 ⟨1, 5, [3], []⟩), (if Gen.cacheTempUnique then none else some (.blob 0)), true⟩ := by
+  obtain ⟨p, hp, _, _⟩ := store_plan_spec
+  exact ⟨_, rfl, by decide⟩
 
 /-! ## non-vacuity -/
 
